@@ -316,6 +316,13 @@ def check(prop_id, tier, seed):
                         else:
                             inconclusive.append(item[0])
                         continue
+                    if run_spec.get("result_kind", spec.get("result_kind")) == "cover":
+                        # verified stroke cover checker: (id, uncovered must points on the scanned lines, triangles too far)
+                        failures.append({"what": "verified cover checker: %d uncovered point(s) of the band on the scanned "
+                                                 "lines, %d triangle(s) reaching beyond the allowed distance" % (item[1], item[2]),
+                                         "case": item[0],
+                                         "input": lookup_case(outdir, {"case": item}), "run": sub + "/" + profile})
+                        continue
                     mismatches.append({"run": sub + "/" + profile, "shard": os.path.basename(f), "case": item})
         elif shards and not ok:
             pass  # model does not build: already recorded as a broken obligation
